@@ -211,14 +211,86 @@ func onPathMarking(c *an.Ctx, det *ssa.Function, rule string) {
 		c.OK(rule, key+":shape", det.Pos(), "not applicable to this detector shape")
 		return
 	}
-	// mark sites: MapUpdate marks[k] = true
+	// which mark values mean "on the current path": the constants written into the mark set for which a
+	// lookup that yields them makes the detector return its sentinel at once
+	idx0 := an.ErrResultIndex(det.Signature)
+	constKey := func(k *ssa.Const) string {
+		if k.Value == nil {
+			return "nil"
+		}
+		return k.Value.ExactString()
+	}
+	written := map[string]*ssa.Const{}
+	an.EachInstr(det, func(in ssa.Instruction) {
+		if mu, ok := in.(*ssa.MapUpdate); ok && an.SameValue(mu.Map, marks) {
+			if k, ok := mu.Value.(*ssa.Const); ok {
+				written[constKey(k)] = k
+			}
+		}
+	})
+	cycleVals := map[string]bool{}
+	for ks, k := range written {
+		k := k
+		ex := &an.Explorer{P: p, NoReturn: noReturn, MaxVisits: 1}
+		val := an.AVal{K: an.AConst, C: k.Value}
+		ex.Atom = func(v ssa.Value) (an.AVal, bool) {
+			switch x := v.(type) {
+			case *ssa.Lookup:
+				if an.SameValue(x.X, marks) && !x.CommaOk {
+					return val, true
+				}
+			case *ssa.Extract:
+				if lk, ok := x.Tuple.(*ssa.Lookup); ok && an.SameValue(lk.X, marks) {
+					if x.Index == 0 {
+						return val, true
+					}
+					return an.ABool(true), true
+				}
+			}
+			return an.AVal{}, false
+		}
+		recursed := false
+		ex.Effect = func(in ssa.Instruction, st *an.State) string {
+			if ci, ok := in.(ssa.CallInstruction); ok {
+				for _, callee := range p.Callees(ci.Common()) {
+					if callee == det {
+						recursed = true
+						return "recurse"
+					}
+				}
+			}
+			return ""
+		}
+		outs := ex.Run(det, det.Blocks[0], nil, nil)
+		all := len(outs) > 0
+		for _, o := range outs {
+			sentinel := false
+			if o.End == "return" && idx0 >= 0 && idx0 < len(o.RetVals) {
+				for _, src := range an.Sources(o.RetVals[idx0]) {
+					if u, ok := src.(*ssa.UnOp); ok {
+						if _, isG := u.X.(*ssa.Global); isG {
+							sentinel = true
+						}
+					}
+				}
+			}
+			if !sentinel || len(o.Effects) > 0 {
+				all = false
+			}
+		}
+		_ = recursed
+		if all {
+			cycleVals[ks] = true
+		}
+	}
+	// mark sites: MapUpdate marks[k] = <on-path value>
 	var markSites []*ssa.MapUpdate
 	an.EachInstr(det, func(in ssa.Instruction) {
 		mu, ok := in.(*ssa.MapUpdate)
 		if !ok || !an.SameValue(mu.Map, marks) {
 			return
 		}
-		if k, ok := mu.Value.(*ssa.Const); ok && k.Value != nil && k.Value.ExactString() == "true" {
+		if k, ok := mu.Value.(*ssa.Const); ok && cycleVals[constKey(k)] {
 			markSites = append(markSites, mu)
 		}
 	})
@@ -232,7 +304,7 @@ func onPathMarking(c *an.Ctx, det *ssa.Function, rule string) {
 			switch x := in.(type) {
 			case *ssa.MapUpdate:
 				if an.SameValue(x.Map, marks) && an.SameValue(x.Key, mk.Key) {
-					if k, ok := x.Value.(*ssa.Const); ok && k.Value != nil && k.Value.ExactString() == "false" {
+					if k, ok := x.Value.(*ssa.Const); ok && !cycleVals[constKey(k)] {
 						return true
 					}
 				}
@@ -253,7 +325,7 @@ func onPathMarking(c *an.Ctx, det *ssa.Function, rule string) {
 								}
 							}
 							if mu, ok := y.(*ssa.MapUpdate); ok {
-								if k, ok := mu.Value.(*ssa.Const); ok && k.Value != nil && k.Value.ExactString() == "false" {
+								if k, ok := mu.Value.(*ssa.Const); ok && !cycleVals[constKey(k)] {
 									found = true
 								}
 							}
